@@ -92,6 +92,39 @@ def check_writer(ctx, m, fn: ast.FunctionDef, label: str, informational: bool = 
                          for c in source.calls_in(fn, include_nested=True)):
         ctx.ob("C14.A5-destination-never-removed", fn, True, "%s: the state file is replaced only by the rename" % label,
                construct="no remove of %s in %s" % (sorted(dests), source.qualname(fn)))
+    # an update that is skipped because "nothing changed since what I wrote last time" (a return guarded by a comparison with an attribute
+    # that this very function binds) is sound only if the remembered state is recorded after EVERY rename of the function succeeded: a
+    # snapshot taken after the first file was published makes the next call skip the repair of a second file whose update failed
+    memo_attrs = {}
+    for nd in cfg.nodes:
+        if nd.kind == "stmt" and isinstance(nd.ast, ast.Assign):
+            for t in nd.ast.targets:
+                if isinstance(t, ast.Attribute) and isinstance(t.value, ast.Name) and t.value.id == "self":
+                    memo_attrs.setdefault(t.attr, []).append(nd)
+    for tn in [x for x in cfg.nodes if x.kind == "test" and isinstance(x.ast, ast.Compare)]:
+        used = ({a.attr for a in ast.walk(tn.ast) if isinstance(a, ast.Attribute) and isinstance(a.value, ast.Name) and a.value.id == "self"}
+                | {a.args[1].value for a in ast.walk(tn.ast) if isinstance(a, ast.Call) and call_name(a) == "getattr" and len(a.args) >= 2
+                   and isinstance(a.args[0], ast.Name) and a.args[0].id == "self" and isinstance(a.args[1], ast.Constant)}) & set(memo_attrs)
+        if not used:
+            continue
+        # does one side of the test leave the function without reaching any rename?
+        skips = False
+        for (m_, lab) in tn.succ:
+            if lab in ("T", "F"):
+                r_ = cfg.reach([m_])
+                if cfg.exit.id in r_ and not any(rn.id in r_ for (rn, _) in rens) and rens:
+                    skips = True
+        if not skips:
+            continue
+        for attr in sorted(used):
+            for st_ in memo_attrs[attr]:
+                ok_m = all(cfg.every_path_to_passes(st_, gates=[rn]) for (rn, _) in rens)
+                ctx.ob("C14.A2-rename-on-success-only", st_.ast, ok_m,
+                       "%s: self.%s (which lets a later call skip the update) is recorded only after every rename" % (label, attr) if ok_m else
+                       "%s: the update is skipped when %s, and self.%s is recorded on a path that does not pass every rename of the function: when "
+                       "the second file's update fails (I/O error in its half) the snapshot still says 'written', the next fault-free call "
+                       "returns early and the second file keeps its stale contents - the two listings disagree until a key-output changes again"
+                       % (label, short(tn.ast, 50), attr), construct="%s: skip-if-unchanged snapshot after every rename" % source.qualname(fn))
     # A6: the publish step is an atomic rename on ONE file system: os.rename / os.replace (shutil.move falls back to copy + unlink
     # across file systems, truncating the live file), and the temporary file lives in the directory of the state file
     for (rn, rc) in rens:
